@@ -81,6 +81,35 @@ Definition mk_key (bin : bool) (raw : list N) : option hname :=
   | None => None
   end.
 
+(* ---- literal ('static) keys and values ---- *)
+(* HeaderName::from_static: HEADER_CHARS_H2 - no case folding (upper case is invalid), the
+   token characters plus the double quote (34); panics on an empty, too long or invalid name *)
+Definition hn_static_char (b : N) : bool :=
+  is_lower b || is_digit b || existsb (N.eqb b) hn_special || (b =? 34).
+Definition hn_static_ok (raw : list N) : bool :=
+  match raw with
+  | [] => false
+  | _ => (nlen raw <=? MAX_HEADER_NAME_LEN) && forallb hn_static_char raw
+  end.
+(* MetadataKey::<VE>::from_static: HeaderName::from_static, then panics (invalid metadata key)
+   unless the suffix fits VE *)
+Definition mk_key_static (bin : bool) (raw : list N) : res hname :=
+  if hn_static_ok raw then (if Bool.eqb (bin_suffix raw) bin then Val raw else Panic) else Panic.
+(* MetadataValue::<Ascii>::from_static = HeaderValue::from_static: visible ASCII and tab only
+   (no obs-text, unlike from_bytes), panics otherwise *)
+Definition hv_static_byte (b : N) : bool := ((32 <=? b) && (b <? 127)) || (b =? 9).
+Definition ascii_from_static (v : list N) : res hvalue := if forallb hv_static_byte v then Val v else Panic.
+(* MetadataValue::<Binary>::from_static: panics unless the text decodes, then keeps the TEXT as is *)
+Definition bin_from_static (v : list N) : res hvalue :=
+  match dec v with Some _ => Val v | None => Panic end.
+(* FromStr / TryFrom<&str> for MetadataValue<Ascii>, TryFrom<Bytes> (from_shared): the rules of
+   from_bytes *)
+Definition ascii_from_str (v : list N) : option hvalue := ascii_from_bytes v.
+Definition ascii_from_shared (v : list N) : option hvalue := ascii_from_bytes v.
+Definition bin_from_shared (b : list N) : option hvalue := bin_try_from_bytes b.
+(* FromStr for MetadataKey<VE> *)
+Definition mk_key_from_str (bin : bool) (raw : list N) : option hname := mk_key bin raw.
+
 (* ------------------------------------------------------------------ map.rs *)
 Definition metadata := hm.
 Definition from_headers (h : hm) : metadata := h.
@@ -109,6 +138,17 @@ Definition contains_key (m : metadata) (raw : list N) : bool :=
 Definition insert (m : metadata) (k : hname) (v : hvalue) : metadata := hm_insert m k v.
 Definition append (m : metadata) (k : hname) (v : hvalue) : metadata := hm_append m k v.
 Definition merge (m o : metadata) : metadata := hm_extend m o.
+
+(* insert / append (+_bin) with a &'static str key: MetadataKey::<VE>::from_static(key) first *)
+Definition insert_static (bin : bool) (m : metadata) (raw : list N) (v : hvalue) : res metadata :=
+  match mk_key_static bin raw with Val k => Val (insert m k v) | Panic => Panic end.
+Definition append_static (bin : bool) (m : metadata) (raw : list N) (v : hvalue) : res metadata :=
+  match mk_key_static bin raw with Val k => Val (append m k v) | Panic => Panic end.
+(* accessors keyed by a validated MetadataKey<VE> (by value or by reference): no suffix test,
+   the key's type carries it *)
+Definition get_by_key (m : metadata) (k : hname) : option hvalue := hm_get m k.
+Definition get_all_by_key (m : metadata) (k : hname) : list hvalue := hm_get_all m k.
+Definition remove_by_key (m : metadata) (k : hname) : metadata := hm_remove m k.
 
 (* Iter::next: every entry of the underlying map once, tagged by the suffix of its name;
    true = KeyAndValueRef::Binary *)
@@ -462,3 +502,18 @@ Definition obs_mutate (ops : list (N * (list N * list N))) (raw va vb : list N) 
            hm_canon (values_mut_apply mut_val m); hm_canon (iter_mut_apply mut_val m) ]
   | _, _ => Nd [Nn 9]
   end.
+
+(* literal keys and values; [m] is built by ops, then written to with literal keys *)
+Definition res_obs {A} (f : A -> tr) (r : res A) : tr :=
+  match r with Val a => Nd [Nn 1; f a] | Panic => Nd [Nn 99] end.
+Definition obs_static (ops : list (N * (list N * list N))) (raw v : list N) : tr :=
+  let m := apply_ops ops in
+  let sv : hvalue := [115; 118] in
+  Nd [ res_obs Bs (mk_key_static false raw); res_obs Bs (mk_key_static true raw);
+       oopt Bs (mk_key_from_str false raw); oopt Bs (mk_key_from_str true raw);
+       res_obs Bs (ascii_from_static v); res_obs bin_val_obs (bin_from_static v);
+       oopt Bs (ascii_from_str v); oopt Bs (ascii_from_shared v); oopt bin_val_obs (bin_from_shared v);
+       res_obs hm_canon (insert_static false m raw sv); res_obs hm_canon (append_static false m raw sv);
+       res_obs hm_canon (insert_static true m raw BIN_MARK); res_obs hm_canon (append_static true m raw BIN_MARK);
+       (* accessors keyed by MetadataKey<VE> / &MetadataKey<VE> answer like the string-keyed ones *)
+       obool true ].
